@@ -93,6 +93,9 @@ JBuild(e) ==
                     [] e.fn \in {"NewEd25519X25519KeyCertificate", "NewRedDSAX25519KeyCertificate"} -> 4 [] OTHER -> 0
             known == SigKnown(st) /\ CryptoKnown(ct) IN
         << R("C02", "constructed_keycert_bytes", r.ok /\ known /\ ExcessFor(st, ct) = 0, r.ser = SerCert(CertKey, KeyCertPayload(st, ct)), cls),
+           \* the convenience constructors and NewKeyCertificateWithTypes are two ways to the same certificate: both give the bytes the
+           \* specification gives for the pair (whatever happened to certificates handed out earlier)
+           R("C19", "keycert_constructors_agree_on_the_certificate", r.ok /\ known /\ ExcessFor(st, ct) = 0, r.ser = SerCert(CertKey, KeyCertPayload(st, ct)), cls),
            R("C10", "keycert_constructor_known_types", known /\ ExcessFor(st, ct) = 0, r.ok, cls),
            R("C10", "keycert_constructor_rejects_unknown", ~known, ~r.ok, cls),
            R("C10", "keycert_sizes_match_table", r.ok /\ known,
